@@ -91,6 +91,13 @@ impl LocalFunction {
                 InstrLocId::new(pos as u32)
             };
             validator.op(pos, &inst)?;
+            // The validator only complains about operators that follow the
+            // function's final `end` once the whole body has been read (and not
+            // at all for operators that do not touch the control stack), but we
+            // have no control frame left to put such an operator into.
+            if ctx.controls.is_empty() {
+                anyhow::bail!("operators remaining after end of function");
+            }
             append_instruction(&mut ctx, inst, loc);
             instruction_mapping.insert(pos - code_address_offset, loc);
         }
